@@ -8,11 +8,15 @@ From Borno Require Import Token.
 From Borno Require Import Lexer.
 From Borno Require Import Ast.
 From Borno Require Import Parser.
+From Borno Require Import Grammar.
 From Borno Require Import LexerFacts.
 From Borno Require Import ParserMono.
 From Borno Require Import ParserTotal.
 From Borno Require Import ParserPrefixDefs.
 From Borno Require Import ParserPrefix.
+From Borno Require Import ParserSC_Base.
+From Borno Require Import ParserSound.
+From Borno Require Import ParserComplete.
 
 (** lexing is a total function of the text *)
 Theorem C08_lex_total :
@@ -46,6 +50,26 @@ Theorem C08_pprogram_mono :
          f <= f' -> pprogram eofl f ts = r -> r <> PFuel -> pprogram eofl f' ts = r.
 Proof. exact (@pprogram_mono). Qed.
 Print Assumptions C08_pprogram_mono.
+
+(** accepted => derivable: an accepted token list is the writing of a well-formed program (the liberties of the relation are exactly the two undocumented rules the property excludes: repeated/trailing-comma object entries; reserved names and the 255-parameter limit are part of well-formedness) *)
+Theorem C08_pprogram_sound :
+  forall (eofl : N) (f : nat) (ts : list token) (ss : list stmt) (r : list token),
+         pprogram eofl f ts = POk ss r [] ->
+         r = [] /\ Forall WFs (map erase_s ss) /\ YieldsProg (map erase_s ss) (map sym_of ts).
+Proof. exact (@pprogram_sound). Qed.
+Print Assumptions C08_pprogram_sound.
+
+(** derivable => accepted: every writing of a well-formed program on one line is accepted with no diagnostic *)
+Theorem C08_pprogram_complete_gen :
+  forall (eofl L : N) (ss : list stmt),
+         Forall WFs ss ->
+         forall ts : list token,
+         map sym_of ts = flat_prog ss ->
+         Forall (fun t : token => tline t = L) ts ->
+         exists (f : nat) (ss' : list stmt),
+           pprogram eofl f ts = POk ss' [] [] /\ map erase_s ss' = map erase_s ss.
+Proof. exact (@pprogram_complete_gen). Qed.
+Print Assumptions C08_pprogram_complete_gen.
 
 (** a fatal diagnostic is issued at a definite point of the token list... *)
 Theorem C08_first_error_point :
